@@ -60,11 +60,15 @@ pub fn main(args: &[String]) -> i32 {
                 match s(st, "ph").as_str() {
                     "R" => {
                         let spec = &sc["muts"][&m];
-                        let text = format!("mutate {{ v.A {{ id:$id {}:$val }} }}", s(spec, "field"));
+                        // a mutation that assigns one field, or (text given) one that changes nothing
+                        let custom = spec.get("text").and_then(|t| t.as_str()).map(|t| t.to_string());
+                        let text = custom.clone().unwrap_or_else(|| format!("mutate {{ v.A {{ id:$id {}:$val }} }}", s(spec, "field")));
                         let parser = Arc::new(MutationParser::parse(&text, &dm).expect("parse"));
                         let mut p = Parameters::default();
                         p.add("id", id.clone()).unwrap();
-                        p.add("val", s(spec, "val")).unwrap();
+                        if custom.is_none() {
+                            p.add("val", s(spec, "val")).unwrap();
+                        }
                         match peer.sql(move |conn| MutationQuery::execute(&mut p, parser, conn).map_err(|e| e.to_string())).await {
                             Ok(mq) => {
                                 pending.insert(m, mq);
